@@ -13,6 +13,7 @@ CONSTRAINT Bound
 CHECK_DEADLOCK FALSE
 INVARIANT InvBounded
 INVARIANT CmsOnce
+INVARIANT TimeSeriesRecent
 PROPERTY PeriodicTimes
 PROPERTY PartPattern
 PROPERTY SeriesStable
